@@ -13,6 +13,7 @@ import tempfile
 import traceback
 
 from vf import boot, gen, observe
+from vf.checks import _c14_ref as R
 from vf.checks import _c14_script as S
 
 ID = "C14"
@@ -368,7 +369,36 @@ def canon_conflicts(tt, ids, conflicts):
     return sorted(tuple(ref(x) for x in c) for c in conflicts)
 
 
-def run_resolve(ctx, tt, ids, res, label):
+def check_raw(ctx, tt, git, label, when):
+    """Oracle on the resolver's input: find_raw_conflicts() against the documented definitions (see _c14_ref).
+
+    Both sides are taken at a fixpoint of the trans-id universe (asking for an entry's parent can register the parent directory).
+    Returns the Fact table, or None when the transform cannot be described (nameless ids ...).
+    """
+    try:
+        for _ in range(5):
+            n = len(R.universe(tt))
+            conflicts = tt.find_raw_conflicts()
+            fs = R.facts(tt)
+            if len(R.universe(tt)) == n:
+                break
+        ref = R.reference_conflicts(tt, fs, git)
+    except (KeyboardInterrupt, SystemExit):
+        raise
+    except Exception as e:
+        ctx.hist("raw-reference-skipped:%s:%s" % (label, type(e).__name__))
+        return None
+    ctx.count("raw_conflict_reference")
+    for k in ref:
+        if k != "duplicate-groups" and ref[k]:
+            ctx.count("raw_ref_" + k.replace(" ", "_"), len(ref[k]))
+    for suffix, msg in R.compare(ref, R.reported(conflicts), fs):
+        ctx.fail("raw-conflicts:%s:%s" % (label.replace("-tp", ""), suffix), "[%s, %s] %s" % (label, when, msg),
+                 {"reported": repr(conflicts)[:600], "entries": {t: (f.parent, f.name, f.kind, f.versioned, f.tree_path) for t, f in list(fs.items())[:24]}})
+    return fs
+
+
+def run_resolve(ctx, tt, ids, res, label, git=False):
     """resolve_conflicts(tt) under a pass counter.  Returns ('ok', raw) | ('malformed', exc); other exceptions propagate."""
     from breezy import transform as T
 
@@ -377,6 +407,7 @@ def run_resolve(ctx, tt, ids, res, label):
             ctx.fail("resolve:does-not-terminate:%s" % label, "more than %d resolution passes" % MAX_PASSES,
                      {"last_conflicts": repr(conflicts)[:600]})
             raise _Abort()
+        check_raw(ctx, t, git, label, "pass %d" % (len(res.passes) + 1))
         res.passes.append(canon_conflicts(t, ids, conflicts))
         kinds = sorted({c[0] for c in conflicts})
         res.kinds.append(kinds)
@@ -496,6 +527,9 @@ def case(ctx):
     res = Resolution()
     outcome = None
     applied = False
+    shapes = set()
+    touched = set()
+    apply_mech = None
     try:
         # ---- build the script online against the real transform
         for step in range(nops):
@@ -527,7 +561,7 @@ def case(ctx):
             # ---- conflict resolution under the pass counter
             ctx.count("resolve_runs")
             try:
-                outcome, payload = run_resolve(ctx, tt, ids, res, label)
+                outcome, payload = run_resolve(ctx, tt, ids, res, label, git)
             except _Abort:
                 outcome = "nonterminating"
             except (KeyboardInterrupt, SystemExit):
@@ -550,13 +584,26 @@ def case(ctx):
             ctx.fail("resolve:no-progress:%s:%s" % (label, "+".join(res.stalled)),
                      "a resolution pass over conflicts that have a resolver changed nothing in the transform (the remaining passes repeat it)",
                      {"passes": repr(res.passes[:3])[:800]})
+        if outcome == "malformed":
+            try:
+                shapes, touched = describe_shapes(ctx, tt, R.facts(tt), git, label, before, script)
+            except (KeyboardInterrupt, SystemExit):
+                raise
+            except Exception:
+                pass
         if outcome == "ok":
             left = tt.find_raw_conflicts()
             ctx.count("no_conflicts_after_resolve")
             if left:
                 ctx.fail("resolve:returned-with-conflicts:%s" % label, "find_raw_conflicts() after resolve_conflicts: %r" % (left,), None, stop=True)
+            # the transform that is about to be applied: "no raw conflicts" must be what the definitions say, and its op shapes name the
+            # mechanism of whatever goes wrong from here on
+            fs = check_raw(ctx, tt, git, label, "resolved")
+            shapes, touched = describe_shapes(ctx, tt, fs, git, label, before, script)
             # ---- preview snapshot BEFORE apply
             snap = take_preview(ctx, tt, wt, git, label, before, "tt", nameless(script))
+            snap["shapes"] = shapes
+            snap["touched"] = touched
             # ---- apply
             try:
                 tt.apply()
@@ -570,7 +617,8 @@ def case(ctx):
                     ctx.hist("refused-nameless:%s:apply" % label)
                 else:
                     outcome = "apply-exception"
-                    ctx.fail("apply:raised:%s:%s@%s" % (label, type(e).__name__, _where(e.__traceback__)),
+                    apply_mech = apply_mechanism(e, tt, shapes, before)
+                    ctx.fail("apply:raised:%s:%s@%s:%s" % (label, type(e).__name__, _where(e.__traceback__), apply_mech),
                              "conflict-free transform did not apply cleanly: %r" % (e,), {"traceback": traceback.format_exc()[-1800:]})
     finally:
         try:
@@ -582,7 +630,7 @@ def case(ctx):
             if outcome in ("ok", "malformed"):
                 # after a clean apply or a reported MalformedTransform, cleaning up must work (after an apply exception it is
                 # part of that finding)
-                ctx.fail("finalize:raised:%s:%s:%s@%s" % (label, outcome, type(e).__name__, _where(e.__traceback__)),
+                ctx.fail("finalize:raised:%s:%s:%s@%s:%s" % (label, outcome, type(e).__name__, _where(e.__traceback__), R.attribute("other", shapes)),
                          "tt.finalize() raised %r" % (e,), {"traceback": traceback.format_exc()[-1500:]})
 
     sig_tail = (label, [o["op"] + ("!" if "refused" in o else "") for o in script], res.kinds, outcome)
@@ -597,7 +645,7 @@ def case(ctx):
         except (KeyboardInterrupt, SystemExit):
             raise
         except Exception as e:
-            ctx.fail("abandoned:%s:tree-unreadable:%s:%s@%s" % (outcome, label, type(e).__name__, _where(e.__traceback__)),
+            ctx.fail("abandoned:%s:tree-unreadable:%s:%s@%s:%s" % (outcome, label, type(e).__name__, _where(e.__traceback__), apply_mech or R.attribute("other", shapes)),
                      "the tree could be read before the transform, after %s + finalize reading it raises %r" % (outcome, e),
                      {"traceback": traceback.format_exc()[-1500:]})
             ctx.note(sig_tail, nontrivial=False)
@@ -609,7 +657,11 @@ def case(ctx):
             for k in (res.kinds[-1] if res.kinds else ["?"]):
                 ctx.hist("malformed-kind:%s:%s" % (label, k))
         if what is not None:
-            ctx.fail("abandoned:%s:tree-changed:%s:%s" % (outcome, label, what), "tree differs after %s + finalize: %r" % (outcome, d), None)
+            if outcome == "apply-exception":
+                # the half of "never a partially applied tree": named after the mechanism of the exception it follows
+                ctx.fail("apply:partially-applied:%s:%s:%s" % (label, what, apply_mech), "tree differs after the failed apply + finalize: %r" % (d,), None)
+            else:
+                ctx.fail("abandoned:%s:tree-changed:%s:%s" % (outcome, label, what), "tree differs after %s + finalize: %r" % (outcome, d), None)
         ctx.note(sig_tail, nontrivial=accepted >= 3 and bool(res.passes),
                  sample={"format": fmt, "script": script[:14], "outcome": outcome, "conflict_kinds_per_pass": res.kinds} if outcome == "malformed" else None)
         return
@@ -617,13 +669,71 @@ def case(ctx):
     # ---- applied: compare the preview with the real result
     judge_applied(ctx, p, wt, git, label, before, orig, snap)
     # ---- the same script through a TransformPreview of the identical copy
-    replay_transform_preview(ctx, orig, script_ops(script), refusals, res, git, label, p, before["view"])
+    replay_transform_preview(ctx, orig, script_ops(script), refusals, res, git, label, p, before["view"], shapes)
     after_view = snap["after_view"]
     nchanged = changed_paths(before["view"], after_view)
     ctx.distinct("applied_end_states", (label, sorted((q, repr(sorted(v.items()))) for q, v in after_view.items() if True)))
     ctx.note(sig_tail, nontrivial=accepted >= 3 and (bool(res.passes) or nchanged >= 2),
              sample={"format": fmt, "script": script[:14], "outcome": outcome, "conflict_kinds_per_pass": res.kinds,
                      "actions": sorted(set(res.actions)), "paths_changed": nchanged})
+
+
+def describe_shapes(ctx, tt, fs, git, label, before, script):
+    shapes, touched = set(), set()
+    if fs is not None:
+        try:
+            shapes = R.shapes(tt, fs, git, before["view"], before["disk"])
+            touched = R.touched_paths(tt, fs)
+        except (KeyboardInterrupt, SystemExit):
+            raise
+        except Exception as e:
+            ctx.hist("shapes-skipped:%s" % type(e).__name__)
+    if nameless(script):
+        shapes.add("nameless-trans-id")
+    ctx.info["shapes"] = sorted(shapes)
+    for sh in shapes:
+        ctx.hist("shape:%s:%s" % (label, sh))
+    return shapes, touched
+
+
+def apply_mechanism(e, tt, shapes, before):
+    """Mechanism label for an exception out of apply(): the op shape (precondition) that explains this kind of failure."""
+    name = type(e).__name__
+    if name == "MalformedTransform":
+        # conflicts that resolve_conflicts() did not see: something registered more tree children in between (reading the preview)
+        kinds = sorted({c[0] for c in getattr(e, "conflicts", [])})
+        why = None
+        for c in getattr(e, "conflicts", []):
+            for x in c[1:]:
+                if isinstance(x, str) and x.startswith("new-"):
+                    try:
+                        tp_ = tt.tree_path(x)
+                        if tt.tree_kind(x) == "symlink" or (tp_ and any(tt.tree_kind(tt.trans_id_tree_path(a)) == "symlink" for a in _ancestors(tp_))):
+                            why = why or "symlink-listed-as-directory"
+                        elif tp_ is not None and (before["view"].get(tp_) or {"kind": 1}).get("kind") is None:
+                            why = "versioned-entry-missing-on-disk"
+                    except Exception:
+                        pass
+        return "conflicts-after-reading-the-preview:%s:%s" % ("+".join(k.replace(" ", "-") for k in kinds), why or R.attribute("late-conflict", shapes))
+    if name == "TransformRenameFailed":
+        import errno as _e
+
+        return "%s:%s" % (_e.errorcode.get(getattr(e, "errno", None), "E?"), R.attribute("rename", shapes))
+    if name == "InconsistentDelta":
+        reason = str(getattr(e, "reason", "") or str(e).rpartition("reason:")[2]).strip().rstrip(".").lower().replace(" ", "-")[:40]
+        return "%s:%s" % (reason, R.attribute("delta", shapes))
+    tb = traceback.extract_tb(e.__traceback__)
+    if any(fs.name == "apply_deletions" for fs in tb):
+        return R.attribute("apply_deletions", shapes)
+    return R.attribute("other", shapes)
+
+
+def _ancestors(path):
+    out = []
+    while "/" in path:
+        path = path.rpartition("/")[0]
+        out.append(path)
+    return out
 
 
 def script_ops(script):
@@ -741,7 +851,36 @@ def report_view_diff(ctx, prefix, what, snap, after_view, before_view):
     for lab, paths in sorted(labels.items()):
         sub = {q: snap["view"].get(q) for q in paths[:3]}
         sub2 = {q: after_view.get(q) for q in paths[:3]}
-        ctx.fail("%s:%s" % (prefix, lab), "%s (%s): %r" % (what, lab, diff_dicts(sub, sub2, "preview", "applied")), None)
+        ctx.fail("%s:%s" % (prefix, with_mechanism(lab, snap)), "%s (%s): %r" % (what, lab, diff_dicts(sub, sub2, "preview", "applied")), None)
+
+
+NAMED_LABELS = ("versioned-file-missing-on-disk-not-listed", "two-trans-ids-one-final-path", "-read-at-final-path", "-read-from-tree-at-final-path")
+
+
+def changes_mechanism(lab, snap, mine, real, git, views):
+    """iter_changes differences: if no differing entry belongs to a path the transform touches, say so; else the op shape."""
+    touched = snap.get("touched")
+    if touched is not None:
+        paths = set()
+        for k in set(mine) | set(real):
+            if mine.get(k) == real.get(k):
+                continue
+            if git:
+                paths.add(k)
+            else:
+                hit = [q for v in views for q, d in v.items() if d.get("file_id") == k]
+                paths.update(hit or ["?"])
+        if paths and "?" not in paths and not any(q in touched or any(q.startswith(t + "/") for t in touched if t) for q in paths):
+            return "%s:path-not-touched-by-the-transform" % lab
+    return with_mechanism(lab, snap)
+
+
+def with_mechanism(lab, snap):
+    """A difference that is only described by its aspect (kind, content, path-only-in-..., iter_changes ...) is a symptom: append the op
+    shape that explains it (or 'unattributed')."""
+    if lab.endswith(NAMED_LABELS) or lab in NAMED_LABELS:
+        return lab
+    return "%s:%s" % (lab, R.attribute("preview", snap.get("shapes") or ()))
 
 
 def judge_applied(ctx, p, wt, git, label, before, orig, snap):
@@ -758,7 +897,7 @@ def judge_applied(ctx, p, wt, git, label, before, orig, snap):
     except Exception as e:
         # the working tree the transform produced cannot be read back through the Tree API
         snap["after_view"] = {}
-        ctx.fail("applied:%s:tree-unreadable:%s@%s" % (label, type(e).__name__, _where(e.__traceback__)),
+        ctx.fail("applied:%s:tree-unreadable:%s@%s:%s" % (label, type(e).__name__, _where(e.__traceback__), R.attribute("other", snap.get("shapes") or ())),
                  "reading the working tree after apply raised %r" % (e,), {"traceback": traceback.format_exc()[-1500:]})
         return
     snap["after_view"] = after_view
@@ -773,7 +912,7 @@ def judge_applied(ctx, p, wt, git, label, before, orig, snap):
         if snap["view"] != after_view:
             report_view_diff(ctx, "preview-vs-applied:%s" % label, "[tt] preview tree before apply != working tree after apply", snap, after_view, before["view"])
         elif snap["root"] != after_root:
-            ctx.fail("preview-vs-applied:%s:root-id" % label, "preview root id %r, applied root id %r" % (snap["root"], after_root), None)
+            ctx.fail("preview-vs-applied:%s:%s" % (label, with_mechanism("root-id", snap)), "preview root id %r, applied root id %r" % (snap["root"], after_root), None)
     # executability scheduled by the transform must also be what the tree records for the file afterwards
     rec = dict(tree_view.recorded_exec)
     nset = 0
@@ -805,7 +944,7 @@ def judge_applied(ctx, p, wt, git, label, before, orig, snap):
                     real = canon_changes(InterInventoryTree(basis, wt2).iter_changes(), git, roots)
         ctx.count("cmp_changes_basis")
         if drop(snap["ch_basis"]) != drop(real):
-            ctx.fail("preview-vs-applied:%s:iter_changes-basis" % label,
+            ctx.fail("preview-vs-applied:%s:%s" % (label, changes_mechanism("iter_changes-basis", snap, drop(snap["ch_basis"]), drop(real), git, (before["view"], after_view))),
                      "preview.iter_changes(basis) != applied.iter_changes(basis): %r" % (diff_dicts(drop(snap["ch_basis"]), drop(real), "preview", "applied"),), None)
     if snap["ch_tt"] is not None:
         owt = WorkingTree.open(orig)
@@ -832,7 +971,7 @@ def judge_applied(ctx, p, wt, git, label, before, orig, snap):
                 elif r is None and v[0] == v[1]:
                     del mine[k]
         if drop(mine) != drop(real):
-            ctx.fail("preview-vs-applied:%s:iter_changes-fast" % label,
+            ctx.fail("preview-vs-applied:%s:%s" % (label, changes_mechanism("iter_changes-fast", snap, drop(mine), drop(real), git, (before["view"], after_view))),
                      "preview.iter_changes(transform's tree) != changes(original tree -> applied tree): %r" % (diff_dicts(drop(mine), drop(real), "preview", "applied"),), None)
     if snap["kinds"] is not None:
         disk = observe.snap_disk(p)
@@ -845,10 +984,10 @@ def judge_applied(ctx, p, wt, git, label, before, orig, snap):
                 lab = "two-trans-ids-one-final-path" if q in snap.get("ambiguous", ()) else "disk-kind"
                 bad.setdefault(lab, []).append((q, "preview=%r" % (k,), "disk=%r" % (dk,)))
         for lab, items in sorted(bad.items()):
-            ctx.fail("preview-vs-applied:%s:%s" % (label, lab), "preview.kind(path) != kind on disk after apply: %r" % (items[:4],), None)
+            ctx.fail("preview-vs-applied:%s:%s" % (label, with_mechanism(lab, snap)), "preview.kind(path) != kind on disk after apply: %r" % (items[:4],), None)
 
 
-def replay_transform_preview(ctx, orig, ops, refusals, res, git, label, p, before_view):
+def replay_transform_preview(ctx, orig, ops, refusals, res, git, label, p, before_view, shapes=()):
     """Same script on tree.preview_transform() of the identical copy; its preview tree vs the applied result."""
     from breezy.workingtree import WorkingTree
 
@@ -873,7 +1012,7 @@ def replay_transform_preview(ctx, orig, ops, refusals, res, git, label, p, befor
             return
         ctx.count("tp_resolve_runs")
         try:
-            outcome, payload = run_resolve(ctx, tp, ids, res2, label + "-tp")
+            outcome, payload = run_resolve(ctx, tp, ids, res2, label + "-tp", git)
         except (_Abort, KeyboardInterrupt, SystemExit):
             raise
         except Exception as e:
@@ -904,6 +1043,7 @@ def replay_transform_preview(ctx, orig, ops, refusals, res, git, label, p, befor
     # generator: two transform objects cannot agree on them.  Ids given by the script or the tree are compared verbatim.
     known = {v.get("file_id") for v in before_view.values()} | {o.get("file_id") for o in ops} | {None, after_root}
     snap = dict(snap)
+    snap["shapes"] = shapes
     snap["view"] = _mask_fabricated(snap["view"], known)
     after_view = _mask_fabricated(after_view, known)
     if snap["view"] != after_view:
